@@ -190,7 +190,7 @@ def run(ctx):
     res.coverage["behaviours_replayed"] = len(order)
     res.coverage["refusals_replayed_with_rest_favourable"] = n_fav
     # 3b. a seed-selected subset again, through the command-line front end (argparse builds the options)
-    n_cli = ctx.pick(400, len(order))
+    n_cli = ctx.pick(250, len(order))
     for bi in order[:n_cli]:
         b = behaviours[bi]
         sc = admin_ops.scenario_from_model(b["cfg"], b["env"], ctx.rng, boundary=False)
@@ -202,10 +202,19 @@ def run(ctx):
     #     an option, or operations that set a PIN) through the command-line front end
     decisive = [b for b in behaviours if admin_ops.pin_decisive(b)]
     n_members = 0
+    seen_groups = set()
     for bi, b in enumerate(decisive):
+        # quick tier: the first decisive behaviour of every (operation, platform, PIN source, any_pin,
+        # content class) runs ALL members, its siblings (they differ in what the device answers later)
+        # a rotating sixth; operations that set no PIN a rotating third. Thorough tier: everything.
+        group = (b["cfg"]["op"], b["cfg"]["plat"], b["cfg"]["src"], b["cfg"]["any_pin"], b["env"]["pinc"])
+        first = group not in seen_groups
+        seen_groups.add(group)
         for mi, m in enumerate(admin_ops.PIN_MEMBERS[b["env"]["pinc"]]):
             if ctx.quick and b["cfg"]["op"] in ("unlock", "pubkeys") and (bi + mi) % 3:
-                continue        # quick tier: a rotating third of the members where no PIN is *set*
+                continue
+            if ctx.quick and not first and (bi + mi) % 6:
+                continue
             vias = [False]
             if b["cfg"]["op"] in ("onboard", "changepin") and (ctx.pick(False, True) or (bi + mi) % 4 == 0):
                 vias.append(True)
@@ -222,9 +231,16 @@ def run(ctx):
     #      is_onboarded, WIPE / SGX_ONBOARD ack, unlock, new PIN): EVERY shape of that answer, everything
     #      else favourable; Ledger behaviours that unlocked: every non-canonical positive answer
     n_shapes, shape_kinds = 0, {}
+    seen_groups = set()
     for bi, b in enumerate(behaviours):
         for si, sh in enumerate(admin_ops.deviation_shapes(b)):
-            vias = [False] + ([True] if (ctx.pick(False, True) or (bi + si) % 4 == 0) else [])
+            # quick tier: all shapes on the first behaviour of every (operation, platform, PIN source,
+            # answer), a rotating third on its siblings
+            group = (b["cfg"]["op"], b["cfg"]["plat"], b["cfg"]["src"], next(iter(sh)))
+            if ctx.quick and (group + (si,)) in seen_groups and (bi + si) % 3:
+                continue
+            seen_groups.add(group + (si,))
+            vias = [False] + ([True] if (ctx.pick(False, True) or (bi + si) % 8 == 0) else [])
             for cli in vias:
                 sc = admin_ops.scenario_from_model(b["cfg"], b["env"], ctx.rng, favourable=True, shapes=sh)
                 sc.desc["cli"] = cli
@@ -243,12 +259,15 @@ def run(ctx):
     #     any-PIN not allowed, everything else favourable, PIN given as an option and typed at the prompt
     sweep = admin_ops.sweep_pins(ctx.pick((1, 2), (1, 2, 3, 4)))
     configs = ctx.pick(
-        [("changepin", "sgx", "opt", False), ("changepin", "sgx", "prompt", False),
-         ("onboard", "sgx", "opt", False), ("onboard", "ledger", "prompt", False)],
+        [("changepin", "sgx", "opt", False), ("onboard", "ledger", "prompt", False)],
         [(op, plat, src, cli) for op in ("onboard", "changepin") for plat in ("ledger", "sgx")
          for src, cli in (("opt", False), ("opt", True), ("prompt", False))])
-    for (op, plat, src, cli) in configs:
-        for i, pin in enumerate(sweep):
+    low = admin_ops.sweep_pins((1,))
+    n_sweep = 0
+    for ci, (op, plat, src, cli) in enumerate(configs):
+        # quick tier: the full sweep on the first configuration, U+0000..7F on the others
+        for i, pin in enumerate(sweep if (ci == 0 or not ctx.quick) else low):
+            n_sweep += 1
             sc = admin_ops.build(
                 op=op, plat=plat, any_pin=False, no_unlock=(op == "changepin"), src=src, pins=[pin],
                 outfile=(op == "onboard" and plat == "ledger"),
@@ -257,7 +276,29 @@ def run(ctx):
                 newpin="t", mode2="signer", keys="t", rng=ctx.rng, cli=cli)
             record(sc, "s%d" % i, "code-point sweep")
     res.coverage["code_point_sweep"] = {"pins": len(sweep), "configurations": len(configs),
-                                        "runs": len(sweep) * len(configs)}
+                                        "runs": n_sweep}
+    # 3d'. channel noise, exhaustively for the low planes: a compliant PIN with every character appended
+    #      / prepended (what a terminal, a pipe or an editor may add), typed at the prompt and given as
+    #      an option; a compliant entry follows at the prompt, so the command can go on
+    wrapped = admin_ops.sweep_wrapped(ctx.pick((1,), (1, 2)))
+    wconfigs = ctx.pick(
+        [("changepin", "sgx", "prompt", False), ("onboard", "ledger", "prompt", False),
+         ("onboard", "sgx", "opt", False)],
+        [(op, plat, "prompt", False) for op in ("onboard", "changepin") for plat in ("ledger", "sgx")] +
+        [("onboard", "ledger", "prompt", True), ("changepin", "sgx", "prompt", True),
+         ("onboard", "sgx", "opt", False), ("changepin", "ledger", "opt", False)])
+    for (op, plat, src, cli) in wconfigs:
+        for i, pin in enumerate(wrapped):
+            sc = admin_ops.build(
+                op=op, plat=plat, any_pin=False, no_unlock=(op == "changepin"), src=src,
+                pins=[pin] + (["zyxw9876"] if src == "prompt" else []),
+                outfile=(op == "onboard" and plat == "ledger"),
+                mode=("boot" if (op == "onboard" or plat == "ledger") else "signer"),
+                onb=("no" if op == "onboard" else "yes"), echo="t", answers="yes", wipe="t", unlock="t",
+                newpin="t", mode2="signer", keys="t", rng=ctx.rng, cli=cli)
+            record(sc, "w%d" % i, "channel-noise sweep")
+    res.coverage["channel_noise_sweep"] = {"pins": len(wrapped), "configurations": len(wconfigs),
+                                           "runs": len(wrapped) * len(wconfigs)}
     # 3e. PINs from the generator (BasePin.generate_pin / FileBasedPin.new)
     n_gen = ctx.pick(500, 20000)
     for i in range(0, n_gen, 100):
@@ -268,13 +309,13 @@ def run(ctx):
                           "desc": {"op": "genpin", "plat": "-", "pins": [], "cli": False}}
     res.coverage["generated_pins"] = n_gen
     # 4. random scenarios (binding B)
-    n_rand = ctx.pick(1500, 40000)
+    n_rand = ctx.pick(800, 40000)
     for i in range(n_rand):
         record(random_scenario(ctx.rng), "r%d" % i, "random")
     res.coverage["random_scenarios"] = n_rand
     # 5. TLC judges every recorded execution
     payload = [{k: t[k] for k in TRACE_KEYS} for t in traces]
-    verdicts, stats = tlc.validate("TraceAdmin", "Trace_Admin.cfg", payload, shards=ctx.pick(6, 12))
+    verdicts, stats = tlc.validate("TraceAdmin", "Trace_Admin.cfg", payload, shards=ctx.pick(8, 12))
     res.checker_cmds.append("tlc -workers 1 -config Trace_Admin.cfg TraceAdmin (x%d shards)" % stats["jvms"])
     accepted = 0
     classes = set()
